@@ -339,8 +339,13 @@ impl PlanStore {
     }
 }
 
+/// The error a failing store call reports. The kind rotates over what real stores return (a refused request is as much a
+/// failed call as a timeout): nothing about "the update was accepted, the call failed, the process keeps running" depends on it.
 fn injected() -> IoError {
-    IoError::new(ErrorKind::Other, "injected fault")
+    static N: std::sync::atomic::AtomicUsize = std::sync::atomic::AtomicUsize::new(0);
+    const KINDS: [ErrorKind; 8] = [ErrorKind::Other, ErrorKind::TimedOut, ErrorKind::PermissionDenied, ErrorKind::ConnectionReset, ErrorKind::InvalidInput, ErrorKind::Unsupported, ErrorKind::BrokenPipe, ErrorKind::ConnectionAborted];
+    let k = KINDS[N.fetch_add(1, std::sync::atomic::Ordering::Relaxed) % KINDS.len()];
+    IoError::new(k, "injected fault")
 }
 fn not_found(key: &str) -> IoError {
     IoError::new(ErrorKind::NotFound, format!("Key not found: {}", key))
@@ -958,7 +963,17 @@ fn gen_workload(rng: &mut Rng, b: u64) -> (Vec<Step>, XCfg) {
     if b % 2 == 0 {
         steps.extend([Step::Set("s0".into(), "a".into()), Step::Flush, Step::Del("s0".into()), Step::Flush, Step::Compact]);
     }
-    (steps, XCfg { target: *[700usize, 1200, 1 << 20].choose(rng).expect("non-empty"), max_per: *[2usize, 3, 5].choose(rng).expect("non-empty") })
+    let mut cfg = XCfg { target: *[700usize, 1200, 1 << 20].choose(rng).expect("non-empty"), max_per: *[2usize, 3, 5].choose(rng).expect("non-empty") };
+    // every fourth base execution is certain to compact next to a segment above the size target (otherwise a shard of a run
+    // may by chance see none, and "a required class was never generated" would make the whole run inconclusive)
+    if b % 4 == 0 {
+        let mut pre: Vec<Step> = (0..8).map(|i| Step::Set(format!("big{}", i), "x".repeat(60))).collect();
+        pre.push(Step::Flush);
+        pre.extend(steps);
+        steps = pre;
+        cfg.target = 700;
+    }
+    (steps, cfg)
 }
 
 fn exec_witness(steps: &[Step], cfg: &XCfg, plan: &BTreeMap<u64, Fault>, extra: Value) -> Value {
@@ -1266,7 +1281,8 @@ async fn crash_body(rep: &mut Report, args: &Args) {
             continue;
         }
         let mut rng = rng_from(args.seed, 1_200_000 + b);
-        let (steps, cfg) = gen_workload(&mut rng, b);
+        // the class index counts this shard's own base executions (b itself keeps one residue per shard)
+        let (steps, cfg) = gen_workload(&mut rng, b / args.shards as u64);
         cx.cache.clear();
         cx.ff_fail = None;
         rep.count("base_executions");
